@@ -594,6 +594,7 @@ func (d *dec) walk() {
 
 // KnownDeviations lists every named deviation this decoder can tolerate (see notes/indep-deviations.md).
 var KnownDeviations = []string{
+	"btree2-empty-root",
 	"superblock-crc32",
 	"superblock-eof-stale",
 	"ohdr-v2-no-checksum",
